@@ -1,6 +1,6 @@
 (* C09 correspondence harness.  The verified checker [check_sort] (C09/Proofs.v: check_sort_sound) is RUN ON THE
    IMPLEMENTATION'S OUTPUT; inference is the C06 model instantiated with the digit tables regenerated from /repo. *)
-From Miller Require Import Base.Record C06.Model C06.Harness C11.Model C09.Model.
+From Miller Require Import Base.Record C06.Model C06.Harness C11.Model C09.Model C09.WithinModel.
 Open Scope Z_scope.
 
 Definition flag_of_code (z : Z) : sflag :=
@@ -36,3 +36,10 @@ Definition chk (c : case) : bool :=
     | _ => false
     end
   else records_eqb (map sort_within_record inp) out.
+
+(* sort-within-records with options on nested (JSON) records: flags bit 0 = -r (recursive), bit 1 = -n (natural);
+   sel = the -f names.  The model's output must EQUAL mlr's. *)
+Definition jcase := (Z * option (list bytes) * list jrec * list jrec)%type.
+Definition chk_j (c : jcase) : bool :=
+  let '(fl, sel, inp, out) := c in
+  jrecs_eqb (map (swr_model natsort_less (Z.odd fl) (Z.odd (fl / 2)) sel) inp) out.
